@@ -183,7 +183,7 @@ def classify(e):
 def run(chk, repo, tier):
     upd = repo.func(INC, 'ThermochemIncomplete.update')
     paths = sym.summarize(upd)
-    chk.need('R13.1', len(paths), 20, 'paths of update')
+    chk.need('R13.1', len(paths), 8, 'paths of update')
     n_raise = 0
     bad_atomic = []
     bad_raise = []
